@@ -2,7 +2,9 @@ SPEC_PART = dict(
     props_file="C13_tdigest",
     legs=[dict(family="tdigest", focus="foreign", oracles=["foreign_ok", "prop_ok"], tie_oracles=["tie_ok"], profiles=["debug", "release"],
                mask=[0, 1, 7, 8, 9, 10, 14, 15, 17, 19, 21], n_quick=150, n_thorough=900, panic_is_violation=True)],
-    trusted=["tdigest: images are built by the generator's own encoder (tools/families/tdigest.py: enc_own, enc_ref) from random abstract "
+    trusted=["tdigest: Base/TDigestBits.v (f64_of_f32, uint_of_f64, is_nan64: bit-level float conversions) is shared by the modelled "
+             "reader and the independent layout decoder, so a mistake there is invisible to the theorems (tied by the correspondence leg only)",
+             "tdigest: images are built by the generator's own encoder (tools/families/tdigest.py: enc_own, enc_ref) from random abstract "
              "states; buffered values cannot be observed before the next compression (no hook): they are checked through total_weight and "
              "through valid_merge of the first compression"],
     assumptions=["tdigest: admissible content: k >= 10, finite values, weights >= 1 with total < 2^64, min/max not NaN"],
@@ -11,4 +13,6 @@ SPEC_PART = dict(
            "values, arbitrary unused bytes and undefined flag bits, reference-implementation big-endian double and float formats "
            "(Props/C13_tdigest.v); tie: spec-encoded images of every variant (and the two reference files) are fed to the crate: k, "
            "total_weight, min, max, is_empty, centroids bit for bit (or a valid merge pass of buffered + centroids), then queries against "
-           "the exact model, updates, merges, round trips")
+           "the exact model, updates, merges, round trips. NOT covered: there is no theorem about a layout-level ENCODER (none is "
+           "defined) -- 'every image a foreign writer can emit' is approximated by 'every byte string the layout decoder reads as an "
+           "admissible state'; the bit-level float functions (Base/TDigestBits.v) are shared by the model and the layout decoder")
